@@ -3,6 +3,15 @@
 import json, subprocess
 
 CHECKS = {
+ "C02": dict(level="exploration", design="§3 C02", technique="exhaustive enumeration of configurations (BGP permutations x statistics objects x join-algorithm assignments x scan flips x star expansion x pool sizes) executed on the real optimizer/engine, differential + SPARQL-algebra reference oracle",
+   text="For 20 join-rich query shapes every permutation of every triples block (<=24) is executed on 16 (thorough ~120) datasets: end to end, under five statistics objects (fresh, empty, all-zero, all-huge, inverted) through Streamertail::find_best_plan, with EVERY assignment of {bind, hash, nested-loop} to the join nodes of each distinct chosen plan (3^j), every scan flip, StarJoin expanded to left-deep joins, through the real stale cached_stats path (query, mutate, query), and with thread pools of 1..16 threads on a 210-triple dataset; every variant must return the reference solution multiset.",
+   note="Interleavings inside a rayon pool are not enumerable (pool sizes are; free-running runs labelled as such); plan variants are built by rewriting the public PhysicalOperator tree; reference evaluator trusted."),
+ "C07": dict(level="model_checking", design="§3 C07", technique="exhaustive operand-pair enumeration + operation-sequence tree search on the real SddManager with truth-table oracle + fault enumeration of every checkpoint / node budget of every budgeted operation with continued use of the manager",
+   text="Part A: all 256x256x{And,Or} operand pairs over 3 variables for each of the 6 introduction orders (canonical handle = function with that truth table), negation, WMC for 3 weight vectors, model enumeration, gradient, exactly_one over every variable list. Part B: tree search over operation sequences with late variable introduction (to 6 variables quick, 8 thorough), invariant equal tables <=> equal handles. Part C: for every budgeted operation of a representative set (all 3-variable pairs in thorough) every deadline checkpoint k and every node budget n, result Err or the unbudgeted handle, then the same manager is reused (same op, dual op, alternative route, all tracked handles) and a second interrupted operation (bound 2).",
+   note="Handles are compared only inside one manager; WMC compared for independent variables with pos+neg=1 and under exactly_one for exclusive groups (the statement leaves unsmoothed group weights open); part C procedures run in forked children so a corrupted-diagram crash is a recorded failure."),
+ "C17": dict(level="exploration", design="§3 C17", technique="bounded-exhaustive enumeration of request texts (seed corpus, every single mutation, token strings) x database states x string entry points on the real code, dataset compared before/after",
+   text="Every seed request (SELECT forms, six update forms, legacy aliases, rejected requests, RULE/REGISTER/RETRIEVE/ML.PREDICT), every single mutation of every seed (incl. multi-byte characters at every offset) and every short token string is submitted to execute_sparql_query, execute_sparql_update, SparqlDatabase::execute_update, handle_update and (SELECTs) the legacy entry point on fresh databases in four states; no panic, the query entry point never changes quads or catalog and refuses every Update, SELECTs never change data, failed updates leave the dataset unchanged.",
+   note="Request classification taken from parse_combined_query (C16's subject); crash isolation by worker subprocess."),
  "C03": dict(level="model_checking", design="§3 C03", technique="explicit-state search over sequences of update requests executed on the real database (prefix replay on a fresh database), whole-dataset comparison with a SPARQL Update reference after every step",
    text="BFS over sequences (depth 4 quick, 5 thorough) of a 34-request alphabet (the six update forms over default and named graphs, swapping / self-referential / graph-variable / blank-node templates, WHERE with FILTER/UNION/VALUES, unbound and literal-subject template variables, 11 malformed or rejected requests) from 3 initial datasets through SparqlDatabase::execute_update; after every step all quads of all graphs (up to blank-node renaming), the catalog bounds, the UpdateSummary counts and acceptance vs rejection are compared with R-update, and a rejected request must leave quads and catalog untouched.",
    note="De-duplication on the abstract dataset (sound because the full physical content is compared through all_quads each step; index divergence is C04's subject); term universe U; reference R-update trusted (self-tested)."),
@@ -27,7 +36,7 @@ CHECKS = {
 }
 
 # checks that exist but must not be claimed yet (red on the unchanged tree until a fix/finding lands)
-PENDING = {'C01': 'check built; AVG-of-empty-group fix pending', 'C17': 'check built; format_parse_error fix pending'}
+PENDING = {}
 
 NOT_YET = {
 }
